@@ -310,9 +310,15 @@ class C06(Property):
         if wide:
             cwl_cases += [(rng.choice(["all", "last"]), True, [rng.randint(0, 14) for _ in range(rng.randint(1, 4))], rng.choice([3, 10, 12]))
                           for _ in range(10)] + [(m, False, s0, 12) for m in ("all", "last") for s0 in (0, 1, 12)]
+        import shutil
+        if shutil.which("node") is None:      # the CWL documents need a JavaScript engine (InlineJavascriptRequirement)
+            ctx.notes.append("node is not on PATH: the end-to-end CWL cases were skipped")
+            cwl_cases, wide_cwl = [], False
+        else:
+            wide_cwl = wide
         for method, scattered, start, limit in cwl_cases:
             yield {"op": "cwl", "method": method, "scattered": scattered, "start": start, "limit": limit}
-        if wide:   # loops inside loops / scatter inside a loop, more than 10 iterations on both levels
+        if wide_cwl:   # loops inside loops / scatter inside a loop, more than 10 iterations on both levels
             yield {"op": "cwl", "kind": "loop-in-loop", "bound": 12, "method": "all", "scattered": False, "start": 1, "limit": 1}
             yield {"op": "cwl", "kind": "scatter-in-loop", "bound": 12, "method": "last", "scattered": False, "start": list(range(1, 13)), "limit": 1}
         # ---- LoopCombinatorStep: when does it stop reading a port ----
